@@ -421,7 +421,12 @@ def extract(g, X):
             pb = X.fn_body(err, pm.group(2))
             look = [codes[c] for c in re.findall(r"PdfError::(\w+)\s*\{\s*\.\.\s*\}", pb) if c in codes]
             through = [w for w in ("Try", "Shared", "FromPrimitive") if re.search(r"PdfError::%s\s*\{[^}]*\}\s*=>\s*\w+\.%s\(\)" % (w, pm.group(2)), pb)]
-        if not re.search(r"Primitive::Null\s*=>\s*Ok\(None\)", body):
+        # the null object reads as None before T is tried: `Primitive::Null => Ok(None)` as a match arm or as an early
+        # `if let Primitive::Null = p { return Ok(None); }`
+        (pp,) = X.fn_params(body, "from_primitive")[:1]
+        nulls = [a for a in X.match_arms(body, re.escape(pp)) if a.pattern == "Primitive::Null" and a.guard is None
+                 and re.fullmatch(r"(?:return\s+)?Ok\(\s*None\s*\)\s*;?", a.expr)]
+        if not nulls or body.index("Primitive::Null") > body.index("T::from_primitive"):
             raise ValueError("Null arm")
         if not re.search(r"if\s+resolve\.options\(\)\.allow_error_in_option\s*=>", body):
             raise ValueError("tolerant arm")
@@ -446,7 +451,7 @@ def extract(g, X):
         i = filers.index("impl<'a, B, OC, SC, L> Resolve for StorageResolver")
         b = X.fn_body(filers[i:], "get")
         # the arm may carry a guard (`Err(e) if computed => …`: the error computed by this very load)
-        shared = "true" if re.search(r"Err\(e\)\s*(?:if\s+[^=]*?)?=>\s*Err\(\s*PdfError::Shared\s*\{", b) else "false"
+        shared = "true" if re.search(r"Err\(\s*\w+\s*\)\s*(?:if\s+[^=]*?)?=>\s*Err\(\s*PdfError::Shared\s*\{", b) else "false"
         return shared
     g.attempt([("get_wraps_shared", "bool")], "file.rs:StorageResolver::get", getfn)
 
@@ -479,7 +484,16 @@ def extract(g, X):
         (kept when T accepts Null, left out otherwise)"""
         b = X.item_body(obj, r"impl\s*<\s*T\s*:\s*Object\s*>\s*Object\s+for\s+Vec\s*<\s*T\s*>\s*\{", "impl Object for Vec<T>")
         guard = re.search(r"Err\(\s*(\w+)\s*\)\s+if\s+(\w+)\s*&&\s*\1\.is_missing_object\(\)\s*=>", b)
-        isref = guard and re.search(r"let\s+%s\s*=\s*matches!\(\s*\w+\s*,\s*Primitive::Reference\(_\)\s*\)" % guard.group(2), b)
+        isref = False
+        if guard:
+            # `let is_ref = matches!(p, Primitive::Reference(_));` or the same test as a match with true / false arms
+            test = X.let_expr(b, guard.group(2))
+            try:
+                accepted, _ = X.variant_pred(test, ["Reference", "Null", "Integer", "Number", "Boolean", "String", "Stream",
+                                                    "Dictionary", "Array", "Name"])
+                isref = [v for v, t in accepted.items() if t] == ["Reference"]
+            except (ValueError, KeyError, TypeError):
+                isref = False
         null = re.search(r"if\s+let\s+Ok\(\s*(\w+)\s*\)\s*=\s*T::from_primitive\(\s*Primitive::Null\s*,\s*\w+\s*\)\s*\{\s*\w+\.push\(\s*\1\s*\)", b)
         return "true" if (guard and isref and null) else "false"
     g.attempt([("vec_missing_element_null", "bool")], "object/mod.rs:impl Object for Vec<T>", vec_reader)
